@@ -68,6 +68,13 @@ class Printer:
         self.posix_prec = posix_prec
         self.vary = vary
         self.defs = {}        # name -> printed body
+        self.x = 0            # depth of (?x: groups being printed: white space and comments are free there
+
+    def fill(self):
+        """inside a (?x: group: white space or a comment, which flex must ignore"""
+        if self.x > 0 and self.rng.random() < 0.45:
+            return self.rng.choice([' ', '  ', '\t', ' /* c */ ', '/**/', ' ', '\n  '])
+        return ''
 
     def esc_char(self, c, in_class=False, in_str=False):
         r = self.rng
@@ -130,10 +137,10 @@ class Printer:
                     body += '\\x%02x' % c if r.random() < 0.5 else '\\%03o' % c
             return '"' + body + '"'
         if k == 'alt':
-            s = self.pr(p[1], 0) + '|' + self.pr(p[2], 1)
-            return '(' + s + ')' if lvl > 0 else s
+            s = self.pr(p[1], 0) + self.fill() + '|' + self.fill() + self.pr(p[2], 1)
+            return '(' + self.fill() + s + self.fill() + ')' if lvl > 0 else s
         if k == 'cat':
-            s = self.pr(p[1], 1) + self.pr(p[2], 2 if self.posix_prec and _ends_rep(p[2]) else 1)
+            s = self.pr(p[1], 1) + self.fill() + self.pr(p[2], 1)
             # right operand at level 1 is fine: cat is associative
             return '(' + s + ')' if lvl > 1 else s
         if k in ('star', 'plus', 'opt'):
@@ -148,20 +155,31 @@ class Printer:
             else:
                 q = '{%d,%d}' % (lo, hi)
             if self.posix_prec:
-                # in POSIX precedence {} binds looser than concatenation: always parenthesise
-                return '(' + self.pr(p[1], 0) + ')' + q
+                # POSIX precedence: {} applies to the whole series (concatenation) to its left, so
+                # `ab{2}` is `(ab){2}` and `x(ab){2}` is `(x(ab)){2}`: the repetition is printed as a
+                # series of its own — bare where it is a whole alternative, in parentheses elsewhere
+                inner = self.pr(p[1], 1) + q
+                return inner if lvl == 0 else '(' + inner + ')'
             return self.pr_operand(p[1]) + q
         if k == 'grp':
             si, ci, ss, cs, a = p[1:]
-            if not (si or ci or ss or cs):
-                return '(' + self.pr(a, 0) + ')'
-            on = ('i' if si else '') + ('s' if ss else '')
+            xflag = self.vary and not self.posix_prec and r.random() < 0.2       # surface syntax only: the pattern is the same
+            if not (si or ci or ss or cs or xflag):
+                return '(' + self.fill() + self.pr(a, 0) + self.fill() + ')'
+            on = ('i' if si else '') + ('s' if ss else '') + ('x' if xflag else '')
             off = ('i' if ci else '') + ('s' if cs else '')
-            return '(?' + on + ('-' + off if off else '') + ':' + self.pr(a, 0) + ')'
+            if xflag:
+                self.x += 1
+            body = self.fill() + self.pr(a, 0) + self.fill()
+            if xflag:
+                self.x -= 1
+            return '(?' + on + ('-' + off if off else '') + ':' + body + ')'
         if k == 'ref':
             name, a = p[1], p[2]
             if name not in self.defs:
+                x, self.x = self.x, 0
                 self.defs[name] = self.pr(a, 0)
+                self.x = x
             return '{' + name + '}'
         raise ValueError(k)
 
@@ -188,8 +206,9 @@ def _ends_rep(p):
 # ---------------------------------------------------------------- random generation
 class Gen:
     def __init__(self, rng, csize=256, alphabet=None, allow_nul=True, caseins=False,
-                 allow_classops=True, union_negated=True, maxrep=4):
+                 allow_classops=True, union_negated=True, maxrep=4, allow_flags=True):
         self.rng = rng
+        self.allow_flags = allow_flags      # False: no (?i:) / (?s:) groups (not available with posix-compat)
         self.csize = csize
         self.caseins = caseins
         self.allow_classops = allow_classops
@@ -290,6 +309,8 @@ class Gen:
             ci = (not si) and r.random() < 0.15
             ss = r.random() < 0.3
             cs = (not ss) and r.random() < 0.1
+            if not self.allow_flags:
+                si = ci = ss = cs = False
             new_ci = (in_ci or si) and not ci
             return ('grp', int(si), int(ci), int(ss), int(cs), self.pat(depth - 1, new_ci))
         if x < 0.84 and in_ci == self.caseins:
